@@ -41,6 +41,7 @@ type c11Outcome struct {
 }
 
 func checkC11(p *Prog, rp *Report) {
+	defer stateRule(p, rp, "C11-STATE", p.Func("control", "NewParagraphReader"), p.Func("control", "NewDecoder"), p.Method("control", "ParagraphReader", "Next"))
 	rp.Explanation = "NewParagraphReader (and NewDecoder, Signer) are interpreted abstractly for plain and for clearsigned input, for a nil keyring, a keyring with a key, an empty keyring and a pointer to a nil key list, with clearsign.Decode (block found / not found), io.ReadAll (ok / error) and openpgp.CheckDetachedSignature (signer / error) replaced by oracles that record their arguments' provenance. C11-CHECKED: with any non-nil keyring pointer, success is only reached through a verification call against that very keyring that returned no error. C11-SAMEBYTES: the bytes verified and the bytes installed for parsing are the same field of the same decoded block, the signature is that block's ArmoredSignature.Body, and the block is decoded from the whole input. C11-REPLACED: after success nothing but those bytes is left to read. C11-SIGNER: the reported signer is the entity the verification returned, and nil for unsigned or unverified input. C11-PROP: a missing block, a read error and a failed verification all make NewParagraphReader / NewDecoder fail without handing out a reader; plain input is passed through untouched with no signer."
 	rp.NotDecided = "everything inside golang.org/x/crypto/openpgp and clearsign (that CheckDetachedSignature succeeds only for a key of the keyring over exactly those bytes; that an empty keyring fails)."
 	rp.Trusted = []string{"go/types, go/ssa", "golang.org/x/crypto/openpgp.CheckDetachedSignature, clearsign.Decode", "bufio / bytes readers deliver the bytes they wrap"}
